@@ -26,6 +26,6 @@ package cache
 //@   requires dc.cache != nil && dc.fileCache != nil && len(key) >= 2 && (forall j int :: 0 <= j && j < len(opts) ==> opts[j] != nil)
 //@   assume after "opt = o(opt)" : opt != nil
 //@   loop 0 invariant opt != nil
-//@   assume after "if b, done, ok := dc.cache.Get(key); ok {" : ok ==> typeof(b) == tagof("*bytes.Buffer") && payload(b) != nil
-//@   assume after "if f, done, ok := dc.fileCache.Get(key); ok {" : ok ==> typeof(f) == tagof("*os.File")
+//@   assume after "dc.cache.Get(key)" : ok ==> typeof(b) == tagof("*bytes.Buffer") && payload(b) != nil
+//@   assume after "dc.fileCache.Get(key)" : ok ==> typeof(f) == tagof("*os.File")
 //@   ensures[C02] forall x ref :: lruGiven[x] == old(lruGiven[x])
